@@ -72,6 +72,10 @@ pub fn pool(thorough: bool) -> Vec<Member> {
     push_ast(E::Object(vec![syntax::Member::Assert(E::True, None), fld("a", Vis::Default, false, num(1))]), vec![]);
     push_ast(E::Object(vec![syntax::Member::Assert(E::False, Some(strlit("never"))), fld("a", Vis::Default, false, num(1))]), vec!["*"]);
     push_ast(E::Object(vec![syntax::Member::Assert(E::Bin(BinOp::Gt, b(selff("a")), b(num(0))), Some(strlit("a must be positive"))), fld("b", Vis::Default, false, num(1))]), vec!["*"]);
+    // assertions that hold for the object alone and are violated by some extensions
+    push_ast(E::Object(vec![syntax::Member::Assert(E::Bin(BinOp::Gt, b(selff("a")), b(num(0))), Some(strlit("a must stay positive"))), fld("a", Vis::Default, false, num(1))]), vec!["*"]);
+    push_ast(E::Object(vec![syntax::Member::Assert(E::Un(UnOp::Not, b(E::Bin(BinOp::In, b(strlit("b")), b(E::SelfE)))), Some(strlit("no b allowed"))), fld("a", Vis::Hidden, false, num(2))]), vec!["*"]);
+    push_ast(E::Object(vec![syntax::Member::Assert(E::Bin(BinOp::Lt, b(stdcall("length", vec![E::SelfE])), b(num(2))), None), fld("c", Vis::Default, false, num(3))]), vec!["*"]);
     push_ast(E::Object(vec![syntax::Member::Field { name: FieldName::Expr(strlit("a")), plus: false, vis: Vis::Default, params: None, body: num(7) }]), vec![]);
     push_ast(E::Object(vec![syntax::Member::Field { name: FieldName::Expr(E::Null), plus: false, vis: Vis::Default, params: None, body: num(7) }]), vec![]);
     push_ast(
